@@ -16,7 +16,8 @@ for log in sys.argv[1:]:
             json.dump(meta, open(mp, 'w'), indent=1)
 print('| seeded | file | function | reported by |')
 print('|---|---|---|---|')
-for d in sorted(glob.glob(os.path.join(VERIF, 'seeded', '*'))):
+for d in sorted(glob.glob(os.path.join(VERIF, 'seeded', '*')) + glob.glob(os.path.join(VERIF, 'seeded-retired', 'C*')),
+                key=os.path.basename):
     meta = json.load(open(os.path.join(d, 'meta.json')))
     diff = open(os.path.join(d, 'patch.diff')).read()
     files = sorted(set(os.path.basename(f) for f in re.findall(r'^\+\+\+ b/TexSoup/(\S+)', diff, re.M)))
@@ -25,4 +26,4 @@ for d in sorted(glob.glob(os.path.join(VERIF, 'seeded', '*'))):
         if f not in funcs:
             funcs.append(f)
     print('| %s | %s | %s | %s |' % (os.path.basename(d), ', '.join(files), ', '.join(funcs[:2]) or '-',
-                                     ', '.join(meta.get('caught_by') or []) or '**not yet run**'))
+                                     (', '.join(meta.get('caught_by') or []) or '**not yet run**') + (' (retired)' if 'seeded-retired' in d else '')))
